@@ -31,7 +31,9 @@ Step(e) ==
           \* C05: every device back to idle, every request served if a ball was available, nothing pending
           \* (a device may keep waiting for a ball only for a request no ball exists for)
           /\ (e.idle \/ (want > Avail /\ SeqToSet(e.states) \subseteq {"idle", "waiting_for_ball"}))
-          /\ Cardinality(In("pf")) = Served
+          \* (a ball more than requested on the playfield is not what either statement forbids: reported as an
+          \*  observation by the driver, not judged here)
+          /\ Cardinality(In("pf")) >= Served
 TNext == l <= Len(TL) /\ Step(TL[l]) /\ l' = l + 1 /\ UNCHANGED tid
 TSpec == TInit /\ [][TNext]_tvars
 Reporter == TraceReport(tid, l, Len(TL))
